@@ -278,10 +278,15 @@ def analyse_inline_trailing(mir):
                 mm = re.search(r"_1\.(\d+):", place)
                 if mm:
                     bcap = ("proj", ("proj", ("s", "_1"), ".%s" % mm.group(1)), "*")
+        short = name.split("::")[-2] + "::" + name.split("::")[-1] if "closure" in name else name.split("::")[-1]
         if bcap is None:
+            # the function pushes trail entries but never looks at the choice-point boundary b: whatever
+            # guards the push, it cannot be `location < b`
+            queries.append("(assert true)")
+            meta.append({"fn": short, "obligation": "%s: the inlined trailing test compares the overwritten "
+                         "cell's location with the choice-point boundary b" % short})
             continue
         heads = util.back_edge_targets(body)
-        short = name.split("::")[-2] + "::" + name.split("::")[-1] if "closure" in name else name.split("::")[-1]
         n = 0
         for entry in (list(heads) or ["bb0"]):
             for p in core.Executor(body, stop_blocks=tuple(heads), max_depth=300, max_paths=2000).run(entry):
